@@ -137,8 +137,8 @@ func ToExpr(args []interface{}, types []reflect.Type, isVariadic bool) ([]Expr, 
 		if expr, ok := a.(Expr); ok {
 			expressions[i] = expr
 		} else {
-			// 兼容可变参数
-			if isVariadic {
+			// 兼容可变参数(只有最后一个参数类型是可变参数数组)
+			if isVariadic && i >= len(types)-1 {
 				typ = typ.Elem()
 			}
 			// 默认使用 equals 表达式
